@@ -56,7 +56,7 @@ Wrapped(t, sub) ==
 
 \* ---- the reduction specs ----------------------------------------------------------------
 Sp(form, init, op, levels, lazy) == [form |-> form, sub |-> "T", init |-> init, op |-> op, levels |-> levels, lazy |-> lazy]
-NumInits == {"int", "float", "half", "five"}
+NumInits == {"int", "float", "half", "five", "dec"}
 AllInits == NumInits \cup {"list", "tuple", "str", "dict", "odict", "seeded", "strx", "tup0"}   \* empty and non-empty starts
 SpecsOf(form) ==
   CASE form = "Fold"    -> {Sp("Fold", i, o, 1, FALSE) : i \in AllInits, o \in {"iadd", "add", "right"}}
@@ -68,6 +68,7 @@ SpecsOf(form) ==
                             Sp("Merge", "dict", "keepfirst", 1, FALSE), Sp("Merge", "list", "extend", 1, FALSE)}
     [] form = "flatten" -> {Sp("flatten", i, "iadd", n, FALSE) : i \in {"list", "tuple", "int", "tup0"}, n \in Levels}
                            \cup {Sp("flatten", "lazy", "iadd", n, TRUE) : n \in Levels \ {0}}
+    [] form = "Count"   -> {Sp("Count", "int", "count", 1, FALSE)}
     [] form = "merge"   -> {Sp("merge", "dict", "update", 1, FALSE), Sp("merge", "odict", "update", 1, FALSE)}
 AllSpecs == UNION {SpecsOf(f) : f \in Forms}
 
